@@ -9,20 +9,25 @@ Property theorems only.  Helper lemmas: `VncModel/Auth/{Lemmas,Process,Complete}
 
 **What is modelled** (`VncModel/Auth/Model.lean`): a whole server *process* — a list of screens
 (password list with `authPasswdFirstViewOnly` / password file / no password), any number of
-connections (inbound or reverse), the process-global security-handler list of auth.c, the source of
-challenges — and the handshake state machine PROTOCOL_VERSION → SECURITY_TYPE → AUTHENTICATION →
+connections (inbound or reverse), the process-global list of registered security handlers of auth.c
+with the application registering/unregistering handlers at any time, the TightVNC file-transfer
+extension's security type 16 (its tunnelling/authentication capability negotiation and its own
+challenge/response inside one call), application handlers as parameters (`Env.app`, assumed not to
+admit by themselves: `AppOk`), the source of challenges — and the handshake state machine PROTOCOL_VERSION → SECURITY_TYPE → AUTHENTICATION →
 INITIALISATION(_SHARED) → NORMAL of rfbserver.c/auth.c for every protocol version (3.3 path, 3.7,
 3.8, the 3.889 quirk), with everything the server writes, read time-outs and failing writes.
 A trace is any list of events `connect / recv bytes / proc (one rfbProcessClientMessage) / peerClose /
-setRand`, so every interleaving of any number of connections, every byte string a client can send in
+setRand / register h / unregister h`, so every interleaving of any number of connections, every byte string a client can send in
 any order (chosen security types 0..255 are just bytes) and every message order is a trace.
 `Env` abstracts `rfbEncryptBytes`, the password-file decoder and the `sscanf` of the version
 message: **the theorems hold for every such function**; the driver instantiates them with the
 executable DES of `VncModel/Des/Des.lean`, which is compared with the compiled crypto back-end on
 every run.
 
-The model is of the code **after** `fixes/C05-global-security-handlers.diff` and
-`fixes/C05-weak-des-key.diff` (`fixed = true`, `Des.rfbEncryptBytes`).  For the code before the
+The model is of the code **after** `fixes/C05-global-security-handlers.diff`,
+`fixes/C05-weak-des-key.diff` (both applied to /repo), `fixes/C05-security-type-list-no-global-swap.diff`
+and `fixes/C05-unregister-single-handler.diff` (round 2: connections no longer touch the shared list;
+unregister removes one node) (`fixed = true`, `Des.rfbEncryptBytes`).  For the code before the
 fixes the property is false; that is documented formally by `auth_bypass_witness_unfixed`,
 `auth_sound_fails_unfixed` (global handler list) and `weak_key_echo_unfixed` (DES back-end), whose
 witnesses are replayed on the real code from corpus/C05/.
@@ -35,8 +40,13 @@ witnesses are replayed on the real code from corpus/C05/.
   verdict.  `passwordCheck_list_iff` / `passwordCheck_file_iff` spell the check out:
   response = `enc pw challenge` for a configured `pw`; view-only iff the first matching index is
   `≥ authPasswdFirstViewOnly`; the file form never yields view-only.
-* `response_is_own_input` — the response the check is applied to is taken from the connection's own
-  input, in state AUTHENTICATION, and from nowhere else.
+* `step_sound` — one call of rfbProcessClientMessage with ANY registered handlers (TightVNC type 16,
+  application handlers satisfying `AppOk`) admits a connection that has to authenticate only with
+  the proof: no path through a registered security type reaches INITIALISATION without it.
+* `response_is_own_input` — the response the check is applied to is 16 bytes of the connection's own
+  pending input (offset 0 in AUTHENTICATION, offset 5 inside the TightVNC negotiation).
+* `auth_complete_tight` — the honest TightVNC client (type 16, auth type VNC, correct response in
+  one write) is admitted and gets ServerInit + interaction capabilities, under any interleaving.
 * `reach_authentication_38`, `reach_authentication_33` — a client that sends a 3.7+/3.3 version
   message (and chooses VNC authentication) gets its challenge, whatever other connections do in
   between (this is the half that fails before the fix when another connection changes the global list).
@@ -70,12 +80,12 @@ parser), every configuration of screens and every trace of events from the initi
 a non-reverse connection to a password screen is admitted only if the 16 bytes it sent in state
 AUTHENTICATION pass the password check of *its* screen against the challenge written to *it*; its
 view-only flag is the verdict of that check. -/
-theorem auth_sound (env : Env) (screens : List Screen) (evs : List Ev) (c : Conn) (scr : Screen)
-    (hc : c ∈ (run true env screens {} evs).conns) (hs : screens[c.screen]? = some scr)
+theorem auth_sound (env : Env) (happ : AppOk env) (screens : List Screen) (evs : List Ev) (c : Conn)
+    (scr : Screen) (hc : c ∈ (run true env screens {} evs).conns) (hs : screens[c.screen]? = some scr)
     (hpw : scr.pw ≠ .none) (hrev : c.reverse = false) (hadm : Admitted c) :
     ∃ resp vo, c.resp = some resp ∧ Msg.challenge c.challenge ∈ c.sent ∧
       passwordCheck env scr.pw c.challenge resp = some vo ∧ c.viewOnly = vo := by
-  have hinv := run_inv env screens evs {} (inv_initial env screens) c hc scr hs ⟨hpw, hrev⟩
+  have hinv := run_inv env happ screens evs {} (inv_initial env screens) c hc scr hs ⟨hpw, hrev⟩
   rcases hinv with ⟨hp, _⟩ | ⟨⟨hc1, hc2⟩, _, hst, _⟩
   · exact hp
   · exfalso
@@ -122,22 +132,55 @@ theorem passwordCheck_none (env : Env) (chal resp : List UInt8) :
     passwordCheck env .none chal resp = none := rfl
 
 /-- **The response is the connection's own input**: one call of rfbProcessClientMessage changes the
-recorded response only in state AUTHENTICATION, to the first 16 bytes of this connection's input. -/
-theorem response_is_own_input (fixed : Bool) (env : Env) (scr : Screen) (hs : List Nat)
-    (rand : List UInt8) (c : Conn) :
-    (procConn fixed env scr hs rand c).1.resp = c.resp ∨
-    (c.st = .auth ∧ c.isOpen = true ∧
-      (procConn fixed env scr hs rand c).1.resp = some (c.inbuf.take 16)) :=
-  procConn_resp fixed env scr hs rand c
+recorded response only to 16 bytes of this connection's own pending input (offset 0 in state
+AUTHENTICATION; offset 5 — after the type byte and the 32-bit auth type — inside the TightVNC
+negotiation). -/
+theorem response_is_own_input (fixed : Bool) (env : Env) (happ : AppOk env) (scr : Screen)
+    (hs : List Handler) (legacy : List Nat) (rand : List UInt8) (c : Conn) :
+    (procConn fixed env scr hs legacy rand c).1.resp = c.resp ∨
+    (c.isOpen = true ∧ ∃ k, (procConn fixed env scr hs legacy rand c).1.resp =
+      some ((c.inbuf.drop k).take Gen.C05.CHALLENGESIZE)) :=
+  procConn_resp fixed env happ scr hs legacy rand c
+
+/-- **One step, any registered handlers**: whatever security handlers are registered (the TightVNC
+extension's type 16, application handlers satisfying `AppOk`), whatever the process-global state and
+the challenge source are: one call of rfbProcessClientMessage on a connection that has to
+authenticate and satisfies the invariant (in particular: one that has not been admitted) leaves it
+admitted only with the proof.  This is the step lemma behind `auth_sound`, stated here because it
+is the precise sense of "no path through a registered security type reaches INITIALISATION
+without the DES proof". -/
+theorem step_sound (env : Env) (happ : AppOk env) (scr : Screen) (hs : List Handler)
+    (legacy : List Nat) (rand : List UInt8) (c : Conn) (hpw : scr.pw ≠ .none) (hrev : c.reverse = false)
+    (hclean : Msg.secResult true ∉ c.sent ∧ Msg.serverInit ∉ c.sent) (hv : c.viewOnly = false)
+    (hst : c.st = .ver ∨ c.st = .sec)
+    (hadm : Admitted (procConn true env scr hs legacy rand c).1) :
+    ∃ resp vo, (procConn true env scr hs legacy rand c).1.resp = some resp ∧
+      Msg.challenge (procConn true env scr hs legacy rand c).1.challenge ∈
+        (procConn true env scr hs legacy rand c).1.sent ∧
+      passwordCheck env scr.pw (procConn true env scr hs legacy rand c).1.challenge resp = some vo ∧
+      (procConn true env scr hs legacy rand c).1.viewOnly = vo := by
+  have hpre : Pre c := ⟨hclean, hv, by rcases hst with h | h <;> simp [h], by
+    rcases hst with h | h <;> simp [h]⟩
+  have hinv := procConn_inv env happ scr hs legacy rand ⟨hpw, hrev⟩ (Or.inr hpre)
+  rcases hinv with ⟨hp, _⟩ | ⟨⟨hc1, hc2⟩, _, hst', _⟩
+  · exact hp
+  · exfalso
+    rcases hadm with h | h | h | h | h
+    · rcases hst' with h' | h' | h' <;> rw [h'] at h <;> cases h
+    · rcases hst' with h' | h' | h' <;> rw [h'] at h <;> cases h
+    · rcases hst' with h' | h' | h' <;> rw [h'] at h <;> cases h
+    · exact hc1 h
+    · exact hc2 h
 
 /-- **No security type skips the proof**: on a connection that has to authenticate, in state
-SECURITY_TYPE, whatever byte 0..255 the client chooses and whatever the process-global handler list
-holds: either the byte is VNC authentication and the challenge is sent, or the connection is closed
-in state SECURITY_TYPE with nothing written. -/
-theorem no_type_skips_auth (env : Env) (scr : Screen) (hs : List Nat) (rand : List UInt8) (c : Conn)
+SECURITY_TYPE: the byte 2 sends the challenge; any byte for which no handler is registered closes the
+connection with nothing written (a registered type runs its handler: `step_sound`). -/
+theorem no_type_skips_auth (env : Env) (scr : Screen) (hs : List Handler) (legacy : List Nat)
+    (rand : List UInt8) (c : Conn)
     (t : UInt8) (rest : List UInt8) (hn : NeedsAuth scr c) (ho : c.isOpen = true)
-    (hst : c.st = .sec) (hbuf : c.inbuf = t :: rest) :
-    let c' := (procConn true env scr hs rand c).1
+    (hst : c.st = .sec) (hbuf : c.inbuf = t :: rest)
+    (hnone : hs.find? (fun h => h.type == t.toNat) = none) :
+    let c' := (procConn true env scr hs legacy rand c).1
     (t = 2 ∧ (c'.st = .auth ∨ c'.isOpen = false) ∧ c'.st ≠ .init ∧ c'.st ≠ .normal ∧
         (c'.sent = c.sent ∨ c'.sent = .challenge rand :: c.sent)) ∨
     (t ≠ 2 ∧ c'.isOpen = false ∧ c'.st = .sec ∧ c'.sent = c.sent) := by
@@ -145,7 +188,6 @@ theorem no_type_skips_auth (env : Env) (scr : Screen) (hs : List Nat) (rand : Li
   have hb : ∀ d : Conn, d.reverse = c.reverse → builtinType scr d = secVncAuth :=
     fun d hd => builtinType_needsAuth ⟨hn.1, by rw [hd]; exact hn.2⟩
   have h1 : ¬ (!c.isOpen) = true := by simp [ho]
-  have h2 : ¬ c.st = .normal := by simp [hst]
   have h3 : ¬ c.inbuf.length < need c.st := by rw [hst, need_sec, hbuf]; simp
   simp only [procConn, if_neg h1, hst, dispatch, need_sec, hbuf]
   by_cases ht : t = 2
@@ -161,7 +203,7 @@ theorem no_type_skips_auth (env : Env) (scr : Screen) (hs : List Nat) (rand : Li
       intro h
       apply ht
       exact UInt8.toNat_inj.mp (by simpa using h)
-    simp [processSecurityType, hb, hne, close, ht]
+    simp [processSecurityType, hb, hne, hnone, close, ht]
 
 /-- **Completeness, first half (3.7 and later)**: a new inbound connection `cid` to a password
 screen that sends a version message parsed as 3.`minor` with `minor ≥ 7`, then the byte 2, receives
@@ -190,14 +232,14 @@ theorem reach_authentication_38 (env : Env) (screens : List Screen) (s : Proc) (
   have f1 := (getConn_run_foreign true env screens o1 _ cid ho1).trans e0
   -- version message
   have e2 := getConn_recv_proc true env screens _ cid pv _ _ scr f1 rfl hscr
-    (fun hs' rand => procConn_version_list true env scr hs' rand _ pv minor ⟨hpw, rfl⟩ rfl rfl rfl
+    (procConn_version_list env scr _ _ _ _ pv minor ⟨hpw, rfl⟩ rfl rfl rfl
       (by simp) hlen hparse hm)
   have f2 := (getConn_run_foreign true env screens o2 _ cid ho2).trans e2
   -- security type 2
   have e4 := getConn_recv_proc true env screens _ cid [2] _ _ scr f2 rfl hscr
-    (fun hs' rand => procConn_choose_vncAuth env scr hs' rand _ ⟨hpw, rfl⟩ rfl rfl rfl (by simp))
+    (procConn_choose_vncAuth env scr _ _ _ _ ⟨hpw, rfl⟩ rfl rfl rfl (by simp))
   have f3 := (getConn_run_foreign true env screens o3 _ cid ho3).trans e4
-  exact ⟨_, f3, rfl, rfl, rfl, rfl, rfl, rfl, rfl, _, offered_vncAuth_ne_nil _, rfl⟩
+  exact ⟨_, f3, rfl, rfl, rfl, rfl, rfl, rfl, rfl, _, offered_ne_nil _ _ _, rfl⟩
 
 /-- **Completeness, first half (3.3 path)**: version message with `minor < 7` ⇒ type word 2 and the
 challenge, state AUTHENTICATION, whatever other connections do. -/
@@ -218,7 +260,7 @@ theorem reach_authentication_33 (env : Env) (screens : List Screen) (s : Proc) (
     simp [step, hfresh, hscr, getConn]
   have f1 := (getConn_run_foreign true env screens o1 _ cid ho1).trans e0
   have e2 := getConn_recv_proc true env screens _ cid pv _ _ scr f1 rfl hscr
-    (fun hs' rand => procConn_version_33 true env scr hs' rand _ pv minor ⟨hpw, rfl⟩ rfl rfl rfl
+    (procConn_version_33 true env scr _ _ _ _ pv minor ⟨hpw, rfl⟩ rfl rfl rfl
       (by simp) hlen hparse hm)
   have f2 := (getConn_run_foreign true env screens o2 _ cid ho2).trans e2
   exact ⟨_, f2, rfl, rfl, rfl, rfl, rfl, rfl, rfl, rfl⟩
@@ -237,20 +279,53 @@ theorem auth_complete (env : Env) (screens : List Screen) (s : Proc) (cid : Nat)
     ∃ c', getConn (run true env screens s
             ([.recv cid resp, .proc cid] ++ o1 ++ [.recv cid [shared], .proc cid] ++ o2)) cid = some c' ∧
       c'.st = .normal ∧ c'.isOpen = true ∧ c'.viewOnly = vo ∧
-      c'.sent = .serverInit :: .secResult true :: c.sent := by
+      c'.sent = (if c.tight then .tightInteractionCaps :: .serverInit :: .secResult true :: c.sent
+                 else .serverInit :: .secResult true :: c.sent) := by
   simp only [run_append, run_cons, run_nil]
   have e2 := getConn_recv_proc true env screens s cid resp c _ scr hg hp hscr
-    (fun hs' rand => procConn_auth_ok env scr hs' rand _ resp vo ho hp hst (by simp [hbuf]) hlen hv hchk)
+    (procConn_auth_ok env scr _ _ _ _ resp vo ho hp hst (by simp [hbuf]) hlen hv hchk)
   have f1 := (getConn_run_foreign true env screens o1 _ cid ho1).trans e2
   have e4 := getConn_recv_proc true env screens _ cid [shared] _ _ scr f1 hp hscr
-    (fun hs' rand => procConn_init true env scr hs' rand _ shared ho hp rfl (by simp))
+    (procConn_init true env scr _ _ _ _ shared ho hp rfl (by simp))
   have f2 := (getConn_run_foreign true env screens o2 _ cid ho2).trans e4
   exact ⟨_, f2, rfl, ho, rfl, rfl⟩
+
+/-- **Completeness through the TightVNC security type**: a connection in state SECURITY_TYPE of a
+password screen, while the extension's handler is the registered handler of type 16, that sends in
+one go the type byte 16, the auth type "VNC" and the 16 bytes that pass the check against the
+challenge the server is about to send, is taken to INITIALISATION in that one call (tunnelling caps,
+auth caps, challenge, SecurityResult OK) and after its ClientInit byte gets ServerInit followed by the
+extension's interaction capabilities, state NORMAL — whatever other connections and the application
+do afterwards. -/
+theorem auth_complete_tight (env : Env) (screens : List Screen) (s : Proc) (cid : Nat) (c : Conn)
+    (scr : Screen) (resp : List UInt8) (vo : Bool) (shared : UInt8) (o1 o2 : List Ev)
+    (hg : getConn s cid = some c) (hscr : screens[c.screen]? = some scr)
+    (hpw : scr.pw ≠ .none) (hrev : c.reverse = false)
+    (ho : c.isOpen = true) (hp : c.peerClosed = false) (hst : c.st = .sec) (hbuf : c.inbuf = [])
+    (hv : c.viewOnly = false) (hlen : resp.length = 16)
+    (hreg : s.handlers.find? (fun h => h.type == 16) = some .tight)
+    (hchk : passwordCheck env scr.pw s.rand resp = some vo)
+    (ho1 : ∀ e ∈ o1, e.foreign cid = true) (ho2 : ∀ e ∈ o2, e.foreign cid = true) :
+    ∃ c', getConn (run true env screens s
+            ([.recv cid (16 :: 0 :: 0 :: 0 :: 2 :: resp), .proc cid] ++ o1 ++
+             [.recv cid [shared], .proc cid] ++ o2)) cid = some c' ∧
+      c'.st = .normal ∧ c'.isOpen = true ∧ c'.viewOnly = vo ∧ c'.resp = some resp ∧
+      c'.sent = .tightInteractionCaps :: .serverInit :: .secResult true :: .challenge s.rand ::
+                .tightAuthCaps 1 :: .tightTunnelCaps :: c.sent := by
+  simp only [run_append, run_cons, run_nil]
+  have e2 := getConn_recv_proc true env screens s cid (16 :: 0 :: 0 :: 0 :: 2 :: resp) c _ scr hg hp hscr
+    (procConn_choose_tight env scr _ _ _ _ resp vo ⟨hpw, hrev⟩ ho hp hst hv (by simp [hbuf]) hlen hreg hchk)
+  have f1 := (getConn_run_foreign true env screens o1 _ cid ho1).trans e2
+  have e4 := getConn_recv_proc true env screens _ cid [shared] _ _ scr f1 hp hscr
+    (procConn_init true env scr _ _ _ _ shared ho hp rfl (by simp))
+  have f2 := (getConn_run_foreign true env screens o2 _ cid ho2).trans e4
+  exact ⟨_, f2, rfl, ho, rfl, rfl, rfl⟩
 
 /-! ## The code before the fixes: the property is false (documented, replayed from corpus/C05) -/
 
 /-- environment for the witness: any version message is 3.8; encryption is irrelevant -/
-def wEnv : Env := { enc := fun _ c => c, decFile := fun _ => none, parseVer := fun _ => some (3, 8) }
+def wEnv : Env :=
+  { enc := fun _ c => c, decFile := fun _ => none, parseVer := fun _ => some (3, 8), app := fun _ c => appClose c }
 
 /-- screen 0 has a password, screen 1 has none -/
 def wScreens : List Screen := [{ pw := .list [[115, 101, 99, 114, 101, 116]] 1 }, { pw := .none }]
@@ -277,7 +352,7 @@ theorem auth_bypass_witness_fixed :
 
 /-- hence the soundness statement is false for the code before the fix -/
 theorem auth_sound_fails_unfixed :
-    ¬ (∀ (env : Env) (screens : List Screen) (evs : List Ev) (c : Conn) (scr : Screen),
+    ¬ (∀ (env : Env) (_ : AppOk env) (screens : List Screen) (evs : List Ev) (c : Conn) (scr : Screen),
         c ∈ (run false env screens {} evs).conns → screens[c.screen]? = some scr →
         scr.pw ≠ .none → c.reverse = false → Admitted c → c.resp ≠ none) := by
   intro h
@@ -296,7 +371,7 @@ theorem auth_sound_fails_unfixed :
     have hrev : c.reverse = false := by
       have : ∀ d ∈ (run false wEnv wScreens {} wTrace).conns, d.reverse = false := by decide
       exact this c hmem
-    exact h wEnv wScreens wTrace c { pw := .list [[115, 101, 99, 114, 101, 116]] 1 } hmem
+    exact h wEnv (appOk_appClose _ _ _) wScreens wTrace c { pw := .list [[115, 101, 99, 114, 101, 116]] 1 } hmem
       (by rw [hscr]; rfl) (by simp) hrev (Or.inr (Or.inr (Or.inl h1))) h3
 
 /-! ## DES: the cheap facts (the DES model itself is validated against the C back-end) -/
@@ -324,7 +399,8 @@ theorem password_file_roundtrip (fixedKey pw : List UInt8) :
 rfbEncryptAndStorePasswd for the C string `pw` accepts the response `resp` to the challenge `chal` iff
 `resp` is the VNC encryption of `chal` under `pw`; the session is never view-only. -/
 theorem file_form_exact (fixedKey pw chal resp : List UInt8) (vo : Bool) (h : (0 : UInt8) ∉ pw) :
-    passwordCheck { enc := Des.rfbEncryptBytes, decFile := decryptPasswdFile fixedKey, parseVer := parseVersion }
+    passwordCheck { enc := Des.rfbEncryptBytes, decFile := decryptPasswdFile fixedKey, parseVer := parseVersion,
+                    app := fun _ c => appClose c }
         (.file (some (storePasswd fixedKey pw))) chal resp = some vo ↔
       (resp = rfbEncryptBytes pw chal ∧ vo = false) := by
   rw [passwordCheck_file_iff]
@@ -367,7 +443,8 @@ theorem weak_key_echo_unfixed (pw chal : List UInt8) (h : gcryRefuses (vncKey pw
 
 /-- a concrete environment with the real DES -/
 def exEnv : Env :=
-  { enc := Des.rfbEncryptBytes, decFile := Des.decryptPasswdFile Gen.C05.fixedkey, parseVer := parseVersion }
+  { enc := Des.rfbEncryptBytes, decFile := Des.decryptPasswdFile Gen.C05.fixedkey, parseVer := parseVersion,
+    app := fun _ c => appClose c }
 
 def exScreens : List Screen := [{ pw := .list [[112, 119], [118, 105, 101, 119]] 1 }, { pw := .none }]
 
@@ -384,6 +461,33 @@ example :
     (getConn s 7).map (fun c => (c.st, c.viewOnly, c.reverse, c.sent.length)) = some (.normal, true, false, 5) := by
   decide +kernel
 
+/-- the assumption on application handlers is met by the harness' handler, so `auth_sound` applies to
+the environment the driver runs -/
+example : AppOk exEnv := appOk_appClose _ _ _
+
+/-- `auth_sound` / `auth_complete_tight` are not vacuous for the TightVNC path: with the extension and
+an application handler of type 30 registered, a 3.8 client authenticates through security type 16
+with the first password while another client talks to the application handler -/
+example :
+    let ch : List UInt8 := [9, 8, 7, 6, 5, 4, 3, 2, 1, 0, 15, 14, 13, 12, 11, 10]
+    let s := run true exEnv exScreens {}
+      [.register .tight, .register (.app 30), .setRand ch,
+       .connect 3 0 false, .recv 3 [82, 70, 66, 32, 48, 48, 51, 46, 48, 48, 56, 10], .proc 3,
+       .connect 4 0 false, .recv 4 [82, 70, 66, 32, 48, 48, 51, 46, 48, 48, 56, 10, 30], .proc 4, .proc 4,
+       .unregister (.app 30),
+       .recv 3 (16 :: 0 :: 0 :: 0 :: 2 :: Des.rfbEncryptBytes [112, 119] ch), .proc 3, .recv 3 [1], .proc 3]
+    ((getConn s 3).map (fun c => (c.st, c.viewOnly, c.tight, c.sent.length)) = some (.normal, false, true, 8)) ∧
+    ((getConn s 4).map (fun c => (c.st, c.isOpen, c.sent)) =
+      some (.sec, false, [.appMarker, .secTypes [2, 30, 16], .version])) := by
+  decide +kernel
+
+/-- asking for "no authentication" inside the TightVNC negotiation on a password screen is refused -/
+example :
+    let c : Conn := { id := 0, screen := 0, reverse := false, st := .sec, inbuf := [16, 0, 0, 0, 1] }
+    let c' := (procConn true exEnv { pw := .list [[112]] 1 } [.tight] [] [] c).1
+    (c'.isOpen, c'.st, c'.sent) = (false, St.sec, [.tightAuthCaps 1, .tightTunnelCaps]) := by
+  decide
+
 /-- the hypotheses of `reach_authentication_38` / `auth_complete` are satisfiable -/
 example : exScreens[0]? = some { pw := .list [[112, 119], [118, 105, 101, 119]] 1 } ∧
     parseVersion [82, 70, 66, 32, 48, 48, 51, 46, 48, 48, 56, 10] = some (3, 8) ∧
@@ -393,8 +497,8 @@ example : exScreens[0]? = some { pw := .list [[112, 119], [118, 105, 101, 119]] 
 /-- `no_type_skips_auth` on a concrete state: type 1 on a password screen closes the connection -/
 example :
     let c : Conn := { id := 0, screen := 0, reverse := false, st := .sec, inbuf := [1] }
-    ((procConn true exEnv { pw := .list [[112]] 1 } [1] [] c).1.isOpen,
-     (procConn true exEnv { pw := .list [[112]] 1 } [1] [] c).1.st) = (false, St.sec) := by
+    ((procConn true exEnv { pw := .list [[112]] 1 } [.tight] [1] [] c).1.isOpen,
+     (procConn true exEnv { pw := .list [[112]] 1 } [.tight] [1] [] c).1.st) = (false, St.sec) := by
   decide
 
 end VncModel.Props.C05
